@@ -75,6 +75,12 @@ type Probe struct {
 	Marker string
 }
 
+var extraCmds = map[string]func(p *Probe, line []byte) any{}
+
+// RegisterCmd adds a protocol command (files ur/cxx_*.go register theirs in init()).
+// The handler receives the raw command line and returns the value to emit as one line.
+func RegisterCmd(name string, h func(p *Probe, line []byte) any) { extraCmds[name] = h }
+
 // Main is the entry point of every generated probe binary.
 func Main(p *Probe) {
 	par := flag.Int("par", 1, "scenarios in flight")
@@ -105,6 +111,12 @@ func Main(p *Probe) {
 				case "quit":
 					wg.Wait()
 					return
+				default:
+					if h, ok := extraCmds[c.Cmd]; ok {
+						emit(h(p, line))
+					} else {
+						emit(map[string]any{"error": "unknown cmd " + c.Cmd})
+					}
 				case "exec":
 					sem <- struct{}{}
 					wg.Add(1)
